@@ -42,6 +42,10 @@ pub(crate) mod dummy;
 
 pub(crate) mod manager;
 
+/// Verification hooks: a facade over a real socket transport (see the file).
+#[cfg(feature = "verif")]
+pub mod verif_sock;
+
 /// Verification hooks: address-book items of the transport manager and the socket-address parsers.
 #[cfg(feature = "verif")]
 pub mod verif {
@@ -54,6 +58,8 @@ pub mod verif {
             verif_addr::*,
         },
     };
+    /// Connection caps: `ConnectionLimits`, `PeerState`, `ConnectionRecord` under public names.
+    pub use super::manager::verif_caps as caps;
 }
 
 pub use manager::limits::{ConnectionLimitsConfig, ConnectionLimitsError};
